@@ -38,7 +38,10 @@ class DeferredNet(simnet.SimNet):
     async def start_connection(self, addr_infos, *, happy_eyeballs_delay=None, interleave=None, loop=None, **kw):
         hosts = [RHOSTS.get(ai[3], ai[3]) for ai in addr_infos]
         self.run.log("tcp_call", hosts=hosts)
-        if self.auto:
+        if self.auto and getattr(self, "down", False):
+            self.run.log("tcp_res", out="refused", host=hosts[0])
+            outcome = ("refused",)
+        elif self.auto:
             self.run.log("tcp_res", out="ok", host=hosts[0])
             outcome = ("ok", hosts[0])
         else:
